@@ -172,6 +172,7 @@ TEnding ==
          v == Verdict(p, L)
          info == [res |-> Ev.res, want |-> v, hm |-> Last(st.hmS), seen |-> Last(st.seenS)]
      IN IF ~Consistent(p) THEN OutOfScope("verdict asked on an inconsistent position")
+        ELSE IF Ev.panic # "" THEN Broken("asking for the game ending panicked", Ev.panic)
         \* precedence between a draw claim and mate/stalemate on the same ply is not judged
         ELSE IF L = {} /\ (rep \/ repMore \/ fifty) THEN Accept(st, "game_ending changed the board", "stable")
         ELSE IF fifty /\ Ev.res # "draw" THEN Reject(st, "draw by move count not reported", info, "stable")
@@ -273,15 +274,24 @@ TSearch ==
 \* one line typed at the `chess pvp` prompt (command-line level of C14): the program prints the
 \* board before and after; only placement and side to move are visible.  An accepted line plays the
 \* move and hands the turn over.
+FileIx(c) == CASE c = "a" -> 0 [] c = "b" -> 1 [] c = "c" -> 2 [] c = "d" -> 3 [] c = "e" -> 4 [] c = "f" -> 5 [] c = "g" -> 6 [] OTHER -> 7
+RankIx(c) == CASE c = "1" -> 0 [] c = "2" -> 1 [] c = "3" -> 2 [] c = "4" -> 3 [] c = "5" -> 4 [] c = "6" -> 5 [] c = "7" -> 6 [] OTHER -> 7
 TCli ==
   /\ Ev.ev = "Cli" /\ mode = "ok"
-  /\ \E p \in {Abs(st)} : \E L \in {Legal(p)} :
-     \E M \in {IF Ev.kind = "coord" THEN CoordMatch(L, Ev.f, Ev.t) ELSE LabelMatch(p, L, Ev.s)} :
+  /\ \E p \in {Abs(st)} : \E L \in {Legal(p)} : \E cls \in {ClassifyLine(Ev.chars)} :
+     \E M \in {CASE cls = "coordinate" -> CoordMatch(L, SqOf(FileIx(Ev.chars[1]), RankIx(Ev.chars[2])), SqOf(FileIx(Ev.chars[3]), RankIx(Ev.chars[4])))
+                   [] cls = "notation" -> LabelMatch(p, L, Ev.s)
+                   [] OTHER -> {}} :
        LET changed == Ev.b # st.b \/ Ev.turn # st.turn
            after(m) == GameToggle(GamePlay(st, m))
            hits == { m \in M : after(m).b = Ev.b /\ after(m).turn = Ev.turn }
+           same == st' = st /\ keyS' = keyS /\ mode' = "ok" /\ Advance
        IN IF M = {} /\ changed THEN Broken("a typed line naming no legal move changed the position", Ev.s)
-          ELSE IF M = {} THEN st' = st /\ keyS' = keyS /\ mode' = "ok" /\ Advance
+          \* the line classifier: malformed lines are "invalid input", well-formed ones reach the game
+          ELSE IF cls = "invalid" /\ Ev.react # "invalid" THEN Reject(st, "a malformed line was not refused as invalid input", [s |-> Ev.s, react |-> Ev.react], "none")
+          ELSE IF cls # "invalid" /\ Ev.react = "invalid" THEN Reject(st, "a well-formed line was refused as invalid input", [s |-> Ev.s, class |-> cls], "none")
+          ELSE IF M = {} /\ cls # "invalid" /\ Ev.react # "error" THEN Reject(st, "a well-formed line naming no legal move was not answered with an error", [s |-> Ev.s, react |-> Ev.react], "none")
+          ELSE IF M = {} THEN same
           ELSE IF ~changed THEN Reject(st, "a line naming a legal move was refused at the command line", Ev.s, "none")
           ELSE IF hits = {} THEN Broken("an accepted line played a different move", Ev.s)
           ELSE st' = after(CHOOSE m \in hits : TRUE) /\ keyS' = keyS /\ mode' = "ok" /\ Advance
